@@ -225,6 +225,9 @@ func stageName(c stage.Cfg) string {
 	if c.Idle {
 		b.WriteString(" producer-goes-idle")
 	}
+	if c.Background {
+		b.WriteString(" context.Background")
+	}
 	if c.Late > 0 {
 		fmt.Fprintf(&b, " consumer-late-before-receive-%d", c.LateAt)
 	}
